@@ -59,6 +59,8 @@ Sites ==
   \cup {[key |-> <<"builder", mm>>, n |-> 1] : mm \in {"stdin_null", "stdout_capture", "stderr_inherit"}}
   \cup {[key |-> <<"builder", mm>>, n |-> 2] : mm \in {"arg", "cwd", "stdin_text", "timeout_ms"}}
   \cup {[key |-> <<"builder", "env">>, n |-> 3]}
+  \* a call whose callee is a value, not a name
+  \cup {[key |-> <<"callee", w>>, n |-> 1] : w \in {"noargs", "onearg"}}
   \* index targets whose base is a call result
   \cup {[key |-> <<"temporary-target", w>>, n |-> 1] : w \in {"store", "push", "nested-store"}}
 
@@ -80,6 +82,10 @@ Use(site, d, id) ==
     [] k1 = "builder" -> <<Shout(id, M(d[1], k2, SubSeq(d, 2, Len(d))))>>
     [] k1 = "method-missing-arg" -> <<Shout(id, M(d[1], k2, SubSeq(d, 2, Len(d))))>>
     [] k1 = "member" -> <<Shout(id, [k |-> "member", o |-> d[1], m |-> k2])>>
+    [] k1 = "callee" ->
+         \* `p(1)` would be a call BY NAME; a variable operand is wrapped so that the callee is a value
+         LET o == IF d[1].k = "var" THEN Idx([k |-> "arr", es |-> <<d[1]>>], Num(0)) ELSE d[1] IN
+         <<Shout(id, [k |-> "callx", o |-> o, as |-> IF k2 = "noargs" THEN <<>> ELSE <<Num(4)>>])>>
     [] k1 = "temporary-target" ->
          \* h() returns [[operand]]; the target is rooted at the call
          <<[k |-> "def", id |-> id, d |-> 10 * id, n |-> "h", site |-> 0, ps |-> <<>>, pd |-> <<>>, psites |-> <<>>,
